@@ -538,6 +538,7 @@ def run(res: Results, idx: Index, tier: str) -> None:
     _controls(res, idx)
     rule_f(res, idx)
     rule_g(res, idx)
+    rule_h(res, idx)
 
 
 def _mypy_crosscheck(res: Results, idx: Index, sites: List[SetIteration]) -> None:
@@ -859,3 +860,72 @@ def rule_g(res: Results, idx: Index) -> None:
     ps = {"a", "b", "flag"}
     miss = ((du.closure(names_in(w.value)) | names_in(w.value)) & ps) - ((du.closure(names_in(w.targets[0].slice)) | names_in(w.targets[0].slice)) & ps)
     res.control("R-C14g", "a memo keyed by (a, b) whose value also depends on `flag` is reported", miss == {"flag"}, str(sorted(miss)))
+
+
+# ---------------------------------------------------------------------------------------------- R-C14h
+_DICT_MUTATORS = {"pop", "update", "clear", "setdefault", "popitem"}
+
+
+def _is_eqn_params_expr(e: ast.AST) -> bool:
+    if isinstance(e, ast.Attribute) and e.attr == "params" and "eqn" in src(e.value, 40).lower():
+        return True
+    if isinstance(e, ast.Call) and (call_name(e) or "") == "getattr" and len(e.args) >= 2 and isinstance(e.args[1], ast.Constant) and e.args[1].value == "params" and "eqn" in src(e.args[0], 40).lower():
+        return True
+    if isinstance(e, ast.BoolOp):   # getattr(eqn, "params", {}) or {}
+        return any(_is_eqn_params_expr(v) for v in e.values)
+    return False
+
+
+def rule_h(res: Results, idx: Index) -> None:
+    """JAX caches traced equations (jit, jax.checkpoint, custom_jvp, scan bodies) and hands the SAME equation objects to a
+    later trace of the same function.  The `params` dict of an equation is therefore shared across conversions: a lowering
+    that deletes, pops or overwrites an entry changes what the next export of the same callable sees (after `del
+    params["instance_key"]` the second export of a checkpointed @onnx_function instance used another instance's weights).
+    Instances: every function that holds the equation's params (a local bound to `eqn.params` / `getattr(eqn, "params")`, or a
+    plain parameter `params` next to an `eqn` parameter).  In-place mutation is allowed only after the name was re-bound to a copy."""
+    res.rule("R-C14h", "lowerings never mutate an equation's params dict in place (it is shared with JAX's trace caches and so with later conversions)", floor=40)
+    n = 0
+    for m in idx.product_modules():
+        for fi in m.funcs.values():
+            a = fi.node.args  # type: ignore[attr-defined]
+            plain = [x.arg for x in a.posonlyargs + a.args + a.kwonlyargs]
+            held: Dict[str, List[Tuple[int, bool]]] = {}   # name -> [(line of binding, is-alias)]
+            if "params" in plain and any(p_ in plain for p_ in ("eqn", "equation")):
+                held.setdefault("params", []).append((fi.node.lineno, True))
+            for st in walk_no_nested(fi.node):
+                if isinstance(st, (ast.Assign, ast.AnnAssign)) and getattr(st, "value", None) is not None:
+                    tg = st.targets if isinstance(st, ast.Assign) else [st.target]
+                    for t in tg:
+                        if isinstance(t, ast.Name):
+                            if _is_eqn_params_expr(st.value):
+                                held.setdefault(t.id, []).append((st.lineno, True))
+                            elif t.id in held or t.id == "params":
+                                # alias of an alias keeps the dict; anything else (dict(...), {**p}, comprehension) is a new object
+                                is_alias = isinstance(st.value, ast.Name) and st.value.id in held
+                                held.setdefault(t.id, []).append((st.lineno, is_alias))
+            held = {k: v for k, v in held.items() if any(al for _l, al in v)}
+            if not held:
+                continue
+            n += 1
+            key = f"{m.rel}::{fi.qualname}::eqn-params"
+            bad = None
+            for x in walk_no_nested(fi.node):
+                nm = None
+                what = None
+                if isinstance(x, ast.Call) and isinstance(x.func, ast.Attribute) and x.func.attr in _DICT_MUTATORS and isinstance(x.func.value, ast.Name) and x.func.value.id in held:
+                    nm, what = x.func.value.id, f".{x.func.attr}(…)"
+                elif isinstance(x, (ast.Assign, ast.AugAssign, ast.Delete)):
+                    for t in (x.targets if not isinstance(x, ast.AugAssign) else [x.target]):
+                        if isinstance(t, ast.Subscript) and isinstance(t.value, ast.Name) and t.value.id in held:
+                            nm, what = t.value.id, ("del …[k]" if isinstance(x, ast.Delete) else "…[k] = v")
+                if nm is None:
+                    continue
+                before = [(l, al) for l, al in held[nm] if l <= x.lineno]
+                if before and max(before)[1]:
+                    bad = bad or (x, nm, what)
+            if bad is not None:
+                res.violation("R-C14h", f"{m.rel}:{bad[0].lineno}", key, f"`{src(bad[0], 50)}` mutates `{bad[1]}`, which is the equation's own params dict: JAX re-uses cached equations (jax.checkpoint, jit, scan bodies) "
+                              "in later traces, so the next conversion of the same callable sees the modified parameters", fi.qualname)
+            else:
+                res.ok("R-C14h", f"{m.rel}:{fi.node.lineno}", key, f"equation params held as {sorted(held)}: read only (or copied before modification)", fi.qualname)
+    res.analysed["functions_holding_eqn_params"] = n
